@@ -163,15 +163,42 @@ func callStmt(pkg, fn string, args ...ast.Expr) ast.Stmt {
 
 func strLit(s string) ast.Expr { return &ast.BasicLit{Kind: token.STRING, Value: strconv.Quote(s)} }
 
+var typed = map[string]*mapSites{} // by package dir (relative)
+
 func rewrite(j *fileJob, stats map[string]int) ([]byte, bool, error) {
 	fset := token.NewFileSet()
-	f, err := parser.ParseFile(fset, j.path, nil, parser.ParseComments)
-	if err != nil {
-		return nil, false, err
-	}
+	var f *ast.File
+	var err error
+	rel, _ := filepath.Rel(*repo, j.path)
 	changed := false
 	need := map[string]string{} // alias -> import path
-	rel, _ := filepath.Rel(*repo, j.path)
+	if j.mapo {
+		d := filepath.Dir(rel)
+		ms := typed[d]
+		if ms == nil {
+			ms, err = typeCheckDir(*repo, d)
+			if err != nil {
+				return nil, false, err
+			}
+			typed[d] = ms
+		}
+		fset, f = ms.fset, ms.files[j.path]
+		if f == nil {
+			return nil, false, fmt.Errorf("file not in type-checked package")
+		}
+		n, sk := ms.rewriteMapRanges(f, rel)
+		stats["map_range_sites"] += n
+		stats["map_range_skipped"] += sk
+		if n > 0 {
+			changed = true
+			need["zzvmap"] = modPath + "/zzverif/vmap"
+		}
+	} else {
+		f, err = parser.ParseFile(fset, j.path, nil, parser.ParseComments)
+		if err != nil {
+			return nil, false, err
+		}
+	}
 
 	if j.sync {
 		for _, im := range f.Imports {
